@@ -51,7 +51,7 @@ theorem sendHeaders_closed (o : Bytes) sid hs es pw pd pe (c : Conn) (hc : CQ o 
   simp only [sendHeaders, openOutboundStreams]; closed_auto
 theorem sendData_closed (o : Bytes) sid d es pad (c : Conn) (hc : CQ o c) :
     DeadQuiet o (sendData sid d es pad) c := by
-  simp only [sendData, localFlowControlWindow]; closed_auto
+  simp only [sendData, sendDataCore, localFlowControlWindow]; closed_auto
 theorem endStream_closed (o : Bytes) sid (c : Conn) (hc : CQ o c) : DeadQuiet o (endStream sid) c := by
   simp only [endStream]; closed_auto
 theorem incrementWindow_closed (o : Bytes) i sid (c : Conn) (hc : CQ o c) :
@@ -76,9 +76,16 @@ theorem ackData_closed (o : Bytes) size sid (c : Conn) (hc : CQ o c) :
     wp (acknowledgeReceivedData size sid) (fun _ c' => c' = c) (fun _ c' => c' = c) c := by
   simp only [acknowledgeReceivedData]
   wps
-  have h : (c.cstate == ConnectionState.CLOSED) = true := by simp [hc.1]
-  repeat' split
-  all_goals first | rfl | simp_all
+  have h : c.cstate = ConnectionState.CLOSED := hc.1
+  split
+  · trivial
+  split
+  · trivial
+  apply wp_getStreamById
+  · wps; simp [h]
+  · intro e; split
+    · simp [h]
+    · rfl
 
 /-- connecting `wp` facts with the observable result of `step` -/
 theorem runU_of_wp {m : CM Unit} {c : Conn} {Q : Unit → Conn → Prop} {E : Exc → Conn → Prop} (h : wp m Q E c) :
